@@ -19,7 +19,7 @@ TRUSTED = [
     'torch.save / torch.load serialisation is not exercised (state is passed in memory, deep-copied)',
     'bit-for-bit equality relies on the same kernels seeing the same bits in both runs (same process, one thread per rank)',
 ]
-THEOREMS = ['save_is_read_only', 'save_load_restores', 'resume_equivalent_same_data', 'resume_equivalent_next_refresh', 'resume_recomputed', 'load_comm_guarded', 'load_comm_none_mem_opt', 'save_and_plain_load_are_silent']
+THEOREMS = ['save_is_read_only', 'save_load_restores', 'resume_equivalent_same_data', 'resume_equivalent_next_refresh', 'resume_recomputed', 'load_comm_guarded', 'load_comm_none_mem_opt', 'save_and_plain_load_are_silent', 'resume_equivalent_over_any_history']
 NOTES = 'Model mirrors the code after fixes D2 (placement of the recomputation at load) and D9 (state saved before the first factor update).'
 
 
